@@ -238,11 +238,11 @@ def foreign_dataset_type(mid: int, d: bytes, g: int, dst: int) -> bool:
 
 
 def _seq_message(kind, mid, data):
-    if kind == 'store_file' or kind == 'store_mem':
+    if kind in ('store_file', 'store_mem', 'store_file_b'):
         m = store_rq(mid, data)
         if kind == 'store_mem':
             m.sop_class_uid = MR
-        return m, (5 if kind == 'store_file' else 9), data
+        return m, {'store_file': 5, 'store_mem': 9, 'store_file_b': 11}[kind], data
     if kind == 'find':
         m = dm.CFindRQMessage()
         m.message_id = mid
@@ -259,22 +259,33 @@ def _seq_message(kind, mid, data):
 
 
 SEQS = [('store_file', 'find'), ('find', 'store_file'), ('store_file', 'store_mem'), ('store_file', 'echo', 'find'),
-        ('store_file', 'store_file'), ('find', 'echo', 'store_mem')]
+        ('store_file', 'store_file'), ('find', 'echo', 'store_mem'),
+        # the same SOP class received on two contexts with different negotiated transfer syntaxes
+        ('store_file', 'store_file_b'), ('store_file_b', 'store_file', 'store_file_b')]
+
+_APP_STATE = [api.ClassState(applicationentity), api.ModuleState(applicationentity)]
 
 
 @cond(bounds='2-3 messages in a row on ONE association through the real StateMachine.dt_2 / ar_6 (Sta6 or Sta7): 6 orders of '
              'file-backed C-STORE-RQ, in-memory C-STORE-RQ, C-FIND-RQ, C-ECHO-RQ; message ids symbolic, 22 '
              'concrete data bytes each (distinct per message), maximum length 58, each message delivered all in one P-DATA-TF, one fragment per '
              'PDU, or split after the first / before the last fragment (symbolic selectors); every message must be indicated exactly when its last fragment arrives, with '
-             'its own type, context, command set and data; the application may have closed an earlier file (symbolic)',
-      family=lambda t: [dict(seq=q, sta7=z) for q in range(len(SEQS)) for z in (0, 1)
-                        if t == 'thorough' or (q + z) % 2 == 0], timeout=300)
+             'its own type, context, command set and data (incl. the same SOP class on two contexts with different syntaxes); the '
+             'application may have closed an earlier file (symbolic); in extra instances the local user requests release after 1 / 3 '
+             '(thorough: 1..4) PDUs of the first message: the rest arrives in Sta7',
+      family=lambda t: [dict(seq=q, sta7=z, rel=0) for q in range(len(SEQS)) for z in (0, 1)
+                        if t == 'thorough' or (q + z) % 2 == 0] +
+                       [dict(seq=q, sta7=0, rel=r) for q in (0, 1) for r in ((1, 2, 3, 4) if t == 'thorough' else (1, 3))],
+      timeout=300)
 def message_sequence(mid: int, g1: int, g2: int, closed: bool) -> bool:
     """
     pre: 0 <= mid <= 65000 and 0 <= g1 <= 3 and 0 <= g2 <= 3
     post: _
     """
     from vt import sim
+    for st_ in _APP_STATE:
+        st_.restore()                     # containers kept on the entity module / classes (caches) start empty
+    rel = fam('rel', 0)
     kinds_ = SEQS[fam('seq')]
     ae = object.__new__(applicationentity.AE)
     applicationentity.AEBase.__init__(ae, TS_LIST, 58)
@@ -282,7 +293,9 @@ def message_sequence(mid: int, g1: int, g2: int, closed: bool) -> bool:
     prov = sim.make_provider(sock, frozenset([CT]), ae.get_file)
     prov.event.clear()
     ts = pydicom.uid.UID(TS_LIST[1])
+    ts_b = pydicom.uid.UID(TS_LIST[2])
     prov.accepted_contexts = {5: asceprovider.PContextDef(5, pydicom.uid.UID(CT), ts),
+                              11: asceprovider.PContextDef(11, pydicom.uid.UID(CT), ts_b),
                               9: asceprovider.PContextDef(9, pydicom.uid.UID(MR), ts),
                               7: asceprovider.PContextDef(7, pydicom.uid.UID(FIND), ts),
                               3: asceprovider.PContextDef(3, pydicom.uid.UID('1.2.840.10008.1.1'), ts)}
@@ -302,6 +315,14 @@ def message_sequence(mid: int, g1: int, g2: int, closed: bool) -> bool:
         g = (0, full, 1, 1 << (n - 2) if n > 1 else 0)[g]
         pdus = regroup(frags, g)
         for i, p in enumerate(pdus):
+            if j == 0 and rel and i == rel and state == fsm.States.STA_6:
+                # the local user requests release in the middle of the incoming message (AR-1: Sta6 -> Sta7); the rest
+                # of the message arrives in Sta7 (AR-6)
+                prov.primitive = pdu.AReleaseRqPDU()
+                sm.action(fsm.Events.EVT_11)
+                state = fsm.States.STA_7
+                ok = ok and len(sock.sent) == 1
+                del sock.sent[:]
             prov.primitive = p
             sm.action(fsm.Events.EVT_10)
             ok = ok and sm.current_state == state and not sock.sent
@@ -310,7 +331,7 @@ def message_sequence(mid: int, g1: int, g2: int, closed: bool) -> bool:
             return False
         got, got_cid = log[j]
         ok = type(got) is type(msg) and got_cid == cid and cmd_equal(got.command_set, msg.command_set)
-        if kind == 'store_file':
+        if kind in ('store_file', 'store_file_b'):
             fp = got.data_set
             ok = ok and fp is not None and not isinstance(fp, bytes)
             if not ok:
@@ -320,7 +341,7 @@ def message_sequence(mid: int, g1: int, g2: int, closed: bool) -> bool:
                 meta, off = part10.read_meta(whole)
             except part10.Part10Error:
                 return False
-            ok = ok and whole[off:] == data and part10.text(meta[(2, 0x10)]) == str(ts)
+            ok = ok and whole[off:] == data and part10.text(meta[(2, 0x10)]) == str(ts if kind == 'store_file' else ts_b)
             if closed:
                 fp.close()                 # the application is done with the file it was handed
         else:
@@ -329,7 +350,7 @@ def message_sequence(mid: int, g1: int, g2: int, closed: bool) -> bool:
             return False
     # files handed over earlier were not written to afterwards
     for j, kind in enumerate(kinds_):
-        if kind == 'store_file' and not closed:
+        if kind in ('store_file', 'store_file_b') and not closed:
             whole = log[j][0].data_set.getvalue()
             meta, off = part10.read_meta(whole)
             ok = ok and len(whole) == off + 22
